@@ -22,6 +22,7 @@ func init() {
 		ruleT3(c, "C04.S6")
 		ruleKind(c, "C04.S7")
 		ruleSlot(c, "C04.S8")
+		ruleV7(c, "C04.S9")
 	}
 }
 
@@ -421,6 +422,13 @@ func ruleS4(c *Ctx, id string) {
 					}
 				}
 			}
+		}
+		// ... and answers "empty" only when the scan ran off the end: a free slot does not end it
+		if _, bound := scanBound(c, isEmpty); bound != nil {
+			okB, why, n := trueOnlyViaBound(isEmpty, bound)
+			R.Check(okB && n > 0, id, "dir.IsDirEmpty|empty only at the end of the scan", P.Pos(isEmpty.Pos()), "IsDirEmpty returns true only through the scan loop's own bound test (offset < size false)", "constants; true only via the bound test", why+": a free slot (entries are removed in place, later ones stay behind it) makes a directory with live entries look empty; RMDIR / RENAME over it orphans them")
+		} else {
+			R.Undecided(id, "dir.IsDirEmpty|empty only at the end of the scan", P.Pos(isEmpty.Pos()), "the scan loop tests offset < directory size", "no such test found")
 		}
 		R.Check(okStart && okStep && nback > 0, id, "dir.IsDirEmpty|scans every entry after . and ..", P.Pos(isEmpty.Pos()), "the emptiness scan starts at offset 2*DIRENTSZ and advances by DIRENTSZ", "constants agree", "the emptiness test skips real entries (or stops short): a directory with entries is taken for empty and unlinked")
 	}
